@@ -24,11 +24,15 @@ pub struct GameRecord {
     /// set when the record comes from a transposition-order (level) tree walk: (actions at the tree root, depth);
     /// such a finding may depend on the order of expansion, so the replayer repeats the whole level walk
     pub level_tree: Option<(usize, u32)>,
+    /// the game was played with look-alike decoys queried before every engine call (see decoy.rs)
+    pub decoyed: bool,
+    /// valid_actions() was asked before valid_actions_no_rep() at every state (instead of after)
+    pub rep_first: bool,
 }
 
 impl GameRecord {
     pub fn new(family: &str, seed: u64, index: u64, start: Start) -> GameRecord {
-        GameRecord { family: family.to_string(), seed, index, start, actions: vec![], level_tree: None }
+        GameRecord { family: family.to_string(), seed, index, start, actions: vec![], level_tree: None, decoyed: false, rep_first: false }
     }
     pub fn actions_text(&self) -> Vec<String> {
         self.actions.iter().map(|c| code_text(*c)).collect()
@@ -57,6 +61,8 @@ impl GameRecord {
             "start_diagram": diagram,
             "actions": self.actions_text(),
             "level_tree": self.level_tree.map(|(at, d)| json!({"root_after_actions": at, "depth": d})),
+            "decoyed": self.decoyed,
+            "rep_first": self.rep_first,
         })
     }
     pub fn from_json(v: &Value) -> Option<GameRecord> {
@@ -71,6 +77,8 @@ impl GameRecord {
             index: v.get("index").and_then(|f| f.as_u64()).unwrap_or(0),
             start,
             actions,
+            decoyed: v.get("decoyed").and_then(|x| x.as_bool()).unwrap_or(false),
+            rep_first: v.get("rep_first").and_then(|x| x.as_bool()).unwrap_or(false),
             level_tree: v.get("level_tree").and_then(|t| Some((t.get("root_after_actions")?.as_u64()? as usize, t.get("depth")?.as_u64()? as u32))),
         })
     }
